@@ -511,16 +511,47 @@ func (f *Flooder) getLocalDisplayName() string {
 	return name
 }
 
+// Limits for one ROUTE_ADVERTISE frame. The route count is a single byte on the
+// wire, and the payload must stay within protocol.MaxPayloadSize even after
+// every forwarding hop has added 16 bytes to the path and 16 to the seen-by
+// list (both lists are limited to 255 entries).
+const (
+	maxRoutesPerAdvertisement     = 255
+	maxRouteBytesPerAdvertisement = 7000
+)
+
+// chunkRoutes splits routes into groups that each fit into one advertisement.
+// It always returns at least one (possibly empty) group.
+func chunkRoutes(routes []protocol.Route) [][]protocol.Route {
+	var chunks [][]protocol.Route
+	start, size := 0, 0
+	for i, r := range routes {
+		rs := 4 + len(r.Prefix) // family + prefix length + prefix + metric
+		if i > start && (i-start >= maxRoutesPerAdvertisement || size+rs > maxRouteBytesPerAdvertisement) {
+			chunks = append(chunks, routes[start:i])
+			start, size = i, 0
+		}
+		size += rs
+	}
+	return append(chunks, routes[start:])
+}
+
 // AnnounceLocalRoutes floods all local routes (CIDR, domain, and forward) to all peers.
 func (f *Flooder) AnnounceLocalRoutes() {
 	localRoutes := f.routeMgr.GetLocalRoutes()
 	localDomainRoutes := f.routeMgr.GetLocalDomainRoutes()
 	localForwardRoutes := f.routeMgr.GetLocalForwardRoutes()
 
-	seq := f.routeMgr.IncrementSequence()
-
-	// Convert to protocol routes (CIDR + domain + forward + agent presence)
+	// Convert to protocol routes (agent presence + CIDR + domain + forward)
 	routes := make([]protocol.Route, 0, len(localRoutes)+len(localDomainRoutes)+len(localForwardRoutes)+1)
+
+	// Always add agent presence route (makes this agent reachable by ID)
+	routes = append(routes, protocol.Route{
+		AddressFamily: protocol.AddrFamilyAgent,
+		PrefixLength:  0,
+		Prefix:        protocol.EncodeAgentPrefix(f.localID),
+		Metric:        0,
+	})
 
 	// Add CIDR routes
 	for _, lr := range localRoutes {
@@ -551,14 +582,6 @@ func (f *Flooder) AnnounceLocalRoutes() {
 		})
 	}
 
-	// Always add agent presence route (makes this agent reachable by ID)
-	routes = append(routes, protocol.Route{
-		AddressFamily: protocol.AddrFamilyAgent,
-		PrefixLength:  0,
-		Prefix:        protocol.EncodeAgentPrefix(f.localID),
-		Metric:        0,
-	})
-
 	// Build path data (always plaintext - needed for multi-hop routing)
 	// Note: Path encryption was removed because transit agents need the path
 	// to forward STREAM_OPEN frames. Path hiding happens at the API layer.
@@ -576,29 +599,33 @@ func (f *Flooder) AnnounceLocalRoutes() {
 		displayName = ""
 	}
 
-	// Build advertisement
-	adv := &protocol.RouteAdvertise{
-		OriginAgent:       f.localID,
-		OriginDisplayName: displayName,
-		Sequence:          seq,
-		Routes:            routes,
-		Path:              path,    // Keep for backwards compat
-		EncPath:           encPath, // Encrypted path for wire format
-		SeenBy:            []identity.AgentID{f.localID},
-	}
+	// A route set that does not fit into one advertisement (one-byte route
+	// count, frame size) is sent as several advertisements, each with its own
+	// sequence number, so that no route is truncated or dropped.
+	for _, chunk := range chunkRoutes(routes) {
+		adv := &protocol.RouteAdvertise{
+			OriginAgent:       f.localID,
+			OriginDisplayName: displayName,
+			Sequence:          f.routeMgr.IncrementSequence(),
+			Routes:            chunk,
+			Path:              path,    // Keep for backwards compat
+			EncPath:           encPath, // Encrypted path for wire format
+			SeenBy:            []identity.AgentID{f.localID},
+		}
 
-	frame := &protocol.Frame{
-		Type:     protocol.FrameRouteAdvertise,
-		StreamID: protocol.ControlStreamID,
-		Payload:  adv.Encode(),
-	}
+		frame := &protocol.Frame{
+			Type:     protocol.FrameRouteAdvertise,
+			StreamID: protocol.ControlStreamID,
+			Payload:  adv.Encode(),
+		}
 
-	// Send to all peers
-	for _, peerID := range f.sender.GetPeerIDs() {
-		if err := f.sender.SendToPeer(peerID, frame); err != nil {
-			f.logger.Debug("failed to announce local routes",
-				logging.KeyPeerID, peerID.ShortString(),
-				logging.KeyError, err)
+		// Send to all peers
+		for _, peerID := range f.sender.GetPeerIDs() {
+			if err := f.sender.SendToPeer(peerID, frame); err != nil {
+				f.logger.Debug("failed to announce local routes",
+					logging.KeyPeerID, peerID.ShortString(),
+					logging.KeyError, err)
+			}
 		}
 	}
 }
@@ -640,8 +667,16 @@ func (f *Flooder) WithdrawLocalRoutes() {
 }
 
 // SendFullTable sends the full routing table to a newly connected peer.
-// Routes are grouped by origin agent and sent with their original path preserved.
 // Includes CIDR, domain, forward, and agent presence routes.
+//
+// Routes learned from other agents are grouped by the announcement they came
+// from (origin agent and sequence number) and each group is replayed under that
+// origin's own sequence number with its original path preserved. Numbering a
+// replay from our own counter would put foreign numbers into the origin's
+// sequence space, so that receivers ignore (or, via the seen cache, drop and do
+// not forward) the origin's later genuine announcements. Our own routes are
+// announced with fresh sequence numbers, split into as many advertisements as
+// the wire format needs.
 func (f *Flooder) SendFullTable(peerID identity.AgentID) {
 	fullRoutes := f.routeMgr.GetFullRoutesForAdvertise(peerID)
 	agentRoutes := f.routeMgr.AgentTable().GetAllRoutes()
@@ -652,136 +687,91 @@ func (f *Flooder) SendFullTable(peerID identity.AgentID) {
 		return
 	}
 
-	// Group CIDR routes by origin agent
-	byOrigin := make(map[identity.AgentID][]*routing.Route)
-	for _, route := range fullRoutes {
-		byOrigin[route.OriginAgent] = append(byOrigin[route.OriginAgent], route)
+	type groupKey struct {
+		origin identity.AgentID
+		seq    uint64
+	}
+	type group struct {
+		routes []protocol.Route
+		path   []identity.AgentID
+		agents map[identity.AgentID]struct{}
+	}
+	groups := make(map[groupKey]*group)
+	var order []groupKey
+	groupFor := func(origin identity.AgentID, seq uint64, path []identity.AgentID) *group {
+		key := groupKey{origin: origin, seq: seq}
+		if origin == f.localID {
+			key.seq = 0 // all of our own routes are announced together
+		}
+		g := groups[key]
+		if g == nil {
+			g = &group{agents: make(map[identity.AgentID]struct{})}
+			groups[key] = g
+			order = append(order, key)
+		}
+		if len(g.path) == 0 && len(path) > 0 {
+			g.path = path
+		}
+		return g
 	}
 
-	// Group agent presence routes by origin agent
-	agentByOrigin := make(map[identity.AgentID][]*routing.AgentRoute)
-	for _, route := range agentRoutes {
+	for _, r := range fullRoutes {
+		g := groupFor(r.OriginAgent, r.Sequence, r.Path)
+		g.routes = append(g.routes, routeToProtocol(r))
+	}
+	for _, r := range agentRoutes {
 		// Don't send routes learned from the peer we're sending to
-		if route.NextHop == peerID {
+		if r.NextHop == peerID {
 			continue
 		}
-		agentByOrigin[route.OriginAgent] = append(agentByOrigin[route.OriginAgent], route)
+		g := groupFor(r.OriginAgent, r.Sequence, r.Path)
+		if _, dup := g.agents[r.AgentID]; dup {
+			continue // same presence route held via another next hop
+		}
+		g.agents[r.AgentID] = struct{}{}
+		g.routes = append(g.routes, protocol.Route{
+			AddressFamily: protocol.AddrFamilyAgent,
+			PrefixLength:  0,
+			Prefix:        protocol.EncodeAgentPrefix(r.AgentID),
+			Metric:        r.Metric,
+		})
 	}
-
-	// Group forward routes by origin agent
-	forwardByOrigin := make(map[identity.AgentID][]*routing.ForwardRoute)
-	for _, route := range forwardRoutes {
-		// Don't send routes learned from the peer we're sending to
-		if route.NextHop == peerID {
+	for _, r := range forwardRoutes {
+		if r.NextHop == peerID {
 			continue
 		}
-		forwardByOrigin[route.OriginAgent] = append(forwardByOrigin[route.OriginAgent], route)
+		g := groupFor(r.OriginAgent, r.Sequence, r.Path)
+		g.routes = append(g.routes, protocol.Route{
+			AddressFamily: protocol.AddrFamilyForward,
+			PrefixLength:  0,
+			Prefix:        protocol.EncodeForwardKeyWithTarget(r.Key, r.Target),
+			Metric:        r.Metric,
+		})
 	}
-
-	// Group domain routes by origin agent
-	domainByOrigin := make(map[identity.AgentID][]*routing.DomainRoute)
-	for _, route := range domainRoutes {
-		// Don't send routes learned from the peer we're sending to
-		if route.NextHop == peerID {
+	for _, r := range domainRoutes {
+		if r.NextHop == peerID {
 			continue
 		}
-		domainByOrigin[route.OriginAgent] = append(domainByOrigin[route.OriginAgent], route)
+		prefixLen := uint8(0)
+		if r.IsWildcard {
+			prefixLen = 1
+		}
+		g := groupFor(r.OriginAgent, r.Sequence, r.Path)
+		g.routes = append(g.routes, protocol.Route{
+			AddressFamily: protocol.AddrFamilyDomain,
+			PrefixLength:  prefixLen,
+			Prefix:        protocol.EncodeDomainPrefix(r.Pattern),
+			Metric:        r.Metric,
+		})
 	}
 
-	// Collect all origin agents
-	allOrigins := make(map[identity.AgentID]struct{})
-	for id := range byOrigin {
-		allOrigins[id] = struct{}{}
-	}
-	for id := range agentByOrigin {
-		allOrigins[id] = struct{}{}
-	}
-	for id := range forwardByOrigin {
-		allOrigins[id] = struct{}{}
-	}
-	for id := range domainByOrigin {
-		allOrigins[id] = struct{}{}
-	}
+	// Send a separate advertisement for each group
+	for _, key := range order {
+		g := groups[key]
+		originAgent := key.origin
 
-	// Send a separate advertisement for each origin
-	for originAgent := range allOrigins {
-		cidrRoutes := byOrigin[originAgent]
-		agentPresenceRoutes := agentByOrigin[originAgent]
-		forwardOriginRoutes := forwardByOrigin[originAgent]
-		domainOriginRoutes := domainByOrigin[originAgent]
-
-		// Our own routes get a fresh sequence number from our counter. Routes
-		// learned from another origin are replayed under that origin's own
-		// sequence number (the highest one we hold): numbering them from our
-		// counter would put foreign numbers into the origin's sequence space,
-		// so that receivers ignore (or, via the seen cache, drop and do not
-		// forward) the origin's later genuine announcements.
-		var seq uint64
-		if originAgent == f.localID {
-			seq = f.routeMgr.IncrementSequence()
-		} else {
-			for _, r := range cidrRoutes {
-				seq = max(seq, r.Sequence)
-			}
-			for _, r := range agentPresenceRoutes {
-				seq = max(seq, r.Sequence)
-			}
-			for _, r := range forwardOriginRoutes {
-				seq = max(seq, r.Sequence)
-			}
-			for _, r := range domainOriginRoutes {
-				seq = max(seq, r.Sequence)
-			}
-		}
-
-		routes := make([]protocol.Route, 0, len(cidrRoutes)+len(agentPresenceRoutes)+len(forwardOriginRoutes)+len(domainOriginRoutes))
-		for _, r := range cidrRoutes {
-			routes = append(routes, routeToProtocol(r))
-		}
-		for _, r := range agentPresenceRoutes {
-			routes = append(routes, protocol.Route{
-				AddressFamily: protocol.AddrFamilyAgent,
-				PrefixLength:  0,
-				Prefix:        protocol.EncodeAgentPrefix(r.AgentID),
-				Metric:        r.Metric,
-			})
-		}
-		for _, r := range forwardOriginRoutes {
-			routes = append(routes, protocol.Route{
-				AddressFamily: protocol.AddrFamilyForward,
-				PrefixLength:  0,
-				Prefix:        protocol.EncodeForwardKeyWithTarget(r.Key, r.Target),
-				Metric:        r.Metric,
-			})
-		}
-		for _, r := range domainOriginRoutes {
-			prefixLen := uint8(0)
-			if r.IsWildcard {
-				prefixLen = 1
-			}
-			routes = append(routes, protocol.Route{
-				AddressFamily: protocol.AddrFamilyDomain,
-				PrefixLength:  prefixLen,
-				Prefix:        protocol.EncodeDomainPrefix(r.Pattern),
-				Metric:        r.Metric,
-			})
-		}
-
-		// Use the path from the first available route
-		// Prepend ourselves to the path
-		var path []identity.AgentID
-		switch {
-		case len(cidrRoutes) > 0 && len(cidrRoutes[0].Path) > 0:
-			path = append([]identity.AgentID{f.localID}, cidrRoutes[0].Path...)
-		case len(agentPresenceRoutes) > 0 && len(agentPresenceRoutes[0].Path) > 0:
-			path = append([]identity.AgentID{f.localID}, agentPresenceRoutes[0].Path...)
-		case len(forwardOriginRoutes) > 0 && len(forwardOriginRoutes[0].Path) > 0:
-			path = append([]identity.AgentID{f.localID}, forwardOriginRoutes[0].Path...)
-		case len(domainOriginRoutes) > 0 && len(domainOriginRoutes[0].Path) > 0:
-			path = append([]identity.AgentID{f.localID}, domainOriginRoutes[0].Path...)
-		default:
-			path = []identity.AgentID{f.localID}
-		}
+		// Prepend ourselves to the path the routes were learned with
+		path := append([]identity.AgentID{f.localID}, g.path...)
 
 		// Get display name for origin agent.
 		// When management key encryption is enabled, omit display names from
@@ -795,25 +785,32 @@ func (f *Flooder) SendFullTable(peerID identity.AgentID) {
 			}
 		}
 
-		adv := &protocol.RouteAdvertise{
-			OriginAgent:       originAgent,
-			OriginDisplayName: originDisplayName,
-			Sequence:          seq,
-			Routes:            routes,
-			Path:              path,
-			SeenBy:            []identity.AgentID{f.localID},
-		}
+		for _, chunk := range chunkRoutes(g.routes) {
+			seq := key.seq
+			if originAgent == f.localID {
+				seq = f.routeMgr.IncrementSequence()
+			}
 
-		frame := &protocol.Frame{
-			Type:     protocol.FrameRouteAdvertise,
-			StreamID: protocol.ControlStreamID,
-			Payload:  adv.Encode(),
-		}
+			adv := &protocol.RouteAdvertise{
+				OriginAgent:       originAgent,
+				OriginDisplayName: originDisplayName,
+				Sequence:          seq,
+				Routes:            chunk,
+				Path:              path,
+				SeenBy:            []identity.AgentID{f.localID},
+			}
 
-		if err := f.sender.SendToPeer(peerID, frame); err != nil {
-			f.logger.Debug("failed to send full routing table",
-				logging.KeyPeerID, peerID.ShortString(),
-				logging.KeyError, err)
+			frame := &protocol.Frame{
+				Type:     protocol.FrameRouteAdvertise,
+				StreamID: protocol.ControlStreamID,
+				Payload:  adv.Encode(),
+			}
+
+			if err := f.sender.SendToPeer(peerID, frame); err != nil {
+				f.logger.Debug("failed to send full routing table",
+					logging.KeyPeerID, peerID.ShortString(),
+					logging.KeyError, err)
+			}
 		}
 	}
 }
